@@ -1,0 +1,75 @@
+//go:build verif
+
+package influxql
+
+// C14: clones are faithful and independent.
+//
+// "fresh(x)" = allocated during the call, so it cannot be shared with the
+// original; every scalar field and every element-wise scalar is required to be
+// equal; node kinds of cloned expressions are equal. A field added to
+// SelectStatement or Measurement later must be added to these clauses (the
+// struct copy "clone := *s" keeps new scalar fields correct by construction;
+// the Target literal does not, which is the IsTarget defect).
+
+//@ func CloneRegexLiteral
+//@   props C14 C13
+//@   safety C13
+//@   modifies @ast
+//@   ensures r == nil ==> result == nil
+//@   ensures r != nil ==> result != nil && fresh(result) && (r.Val == nil ==> result.Val == nil) && (r.Val != nil ==> result.Val != nil)
+
+//@ func (*Measurement).Clone
+//@   props C14 C13
+//@   safety C13
+//@   modifies @ast
+//@   requires m != nil
+//@   ensures result != nil && fresh(result)
+//@   ensures result.Database == m.Database && result.RetentionPolicy == m.RetentionPolicy && result.Name == m.Name && result.IsTarget == m.IsTarget && result.SystemIterator == m.SystemIterator
+//@   ensures (m.Regex == nil ==> result.Regex == nil) && (m.Regex != nil && m.Regex.Val != nil ==> result.Regex != nil && fresh(result.Regex))
+
+//@ func cloneSource
+//@   props C14 C13
+//@   safety C13
+//@   astparams
+//@   modifies @ast
+//@   ensures s == nil ==> result == nil
+//@   ensures s != nil ==> notnil(result) && fresh(result) && result.typ__ == s.typ__
+//@   ensures istype(s, *Measurement) ==> result.(*Measurement).Name == s.(*Measurement).Name && result.(*Measurement).Database == s.(*Measurement).Database && result.(*Measurement).RetentionPolicy == s.(*Measurement).RetentionPolicy && result.(*Measurement).IsTarget == s.(*Measurement).IsTarget && result.(*Measurement).SystemIterator == s.(*Measurement).SystemIterator
+
+//@ func cloneSources
+//@   props C14 C13
+//@   safety C13
+//@   astparams
+//@   modifies @ast
+//@   ensures len(result) == len(sources) && fresh(result)
+//@   ensures forall(i, 0, len(sources), notnil(result[i]) && fresh(result[i]) && result[i].typ__ == sources[i].typ__)
+//@   loop 1 invariant -1 <= rangeindex && rangeindex < len(sources) && len(clone) == rangeindex + 1 && fresh(clone) && clone != nil
+//@   loop 1 invariant forall(i, 0, rangeindex + 1, notnil(clone[i]) && fresh(clone[i]) && clone[i].typ__ == sources[i].typ__)
+
+//@ func (*SelectStatement).Clone
+//@   props C14 C13
+//@   safety C13
+//@   modifies @ast
+//@   requires s != nil
+//@   ensures result != nil && fresh(result) && result != s
+//@   ensures result.Limit == s.Limit && result.Offset == s.Offset && result.SLimit == s.SLimit && result.SOffset == s.SOffset && result.groupByInterval == s.groupByInterval
+//@   ensures result.IsRawQuery == s.IsRawQuery && result.Fill == s.Fill && result.FillValue == s.FillValue && result.Location == s.Location && result.TimeAlias == s.TimeAlias
+//@   ensures result.OmitTime == s.OmitTime && result.StripName == s.StripName && result.EmitName == s.EmitName && result.Dedupe == s.Dedupe
+//@   ensures len(result.Fields) == len(s.Fields) && fresh(result.Fields)
+//@   ensures forall(i, 0, len(s.Fields), result.Fields[i] != nil && fresh(result.Fields[i]) && result.Fields[i].Alias == s.Fields[i].Alias && notnil(result.Fields[i].Expr) && fresh(result.Fields[i].Expr) && result.Fields[i].Expr.typ__ == s.Fields[i].Expr.typ__)
+//@   ensures len(result.Dimensions) == len(s.Dimensions) && fresh(result.Dimensions)
+//@   ensures forall(i, 0, len(s.Dimensions), result.Dimensions[i] != nil && fresh(result.Dimensions[i]) && notnil(result.Dimensions[i].Expr) && fresh(result.Dimensions[i].Expr) && result.Dimensions[i].Expr.typ__ == s.Dimensions[i].Expr.typ__)
+//@   ensures len(result.SortFields) == len(s.SortFields) && fresh(result.SortFields)
+//@   ensures forall(i, 0, len(s.SortFields), result.SortFields[i] != nil && fresh(result.SortFields[i]) && result.SortFields[i].Name == s.SortFields[i].Name && result.SortFields[i].Ascending == s.SortFields[i].Ascending)
+//@   ensures len(result.Sources) == len(s.Sources) && fresh(result.Sources)
+//@   ensures forall(i, 0, len(s.Sources), notnil(result.Sources[i]) && fresh(result.Sources[i]) && result.Sources[i].typ__ == s.Sources[i].typ__)
+//@   ensures (s.Condition == nil ==> result.Condition == nil) && (s.Condition != nil ==> notnil(result.Condition) && fresh(result.Condition) && result.Condition.typ__ == s.Condition.typ__)
+//@   ensures (s.Target == nil ==> result.Target == nil) && (s.Target != nil ==> result.Target != nil && fresh(result.Target) && result.Target.Measurement != nil && fresh(result.Target.Measurement))
+//@   ensures s.Target != nil ==> result.Target.Measurement.Database == s.Target.Measurement.Database && result.Target.Measurement.RetentionPolicy == s.Target.Measurement.RetentionPolicy && result.Target.Measurement.Name == s.Target.Measurement.Name
+//@   ensures s.Target != nil ==> result.Target.Measurement.IsTarget == s.Target.Measurement.IsTarget && result.Target.Measurement.SystemIterator == s.Target.Measurement.SystemIterator
+//@   loop 1 invariant -1 <= rangeindex && rangeindex < len(s.Fields) && len(clone.Fields) == rangeindex + 1 && fresh(clone.Fields) && clone.Fields != nil
+//@   loop 1 invariant forall(i, 0, rangeindex + 1, clone.Fields[i] != nil && fresh(clone.Fields[i]) && clone.Fields[i].Alias == s.Fields[i].Alias && notnil(clone.Fields[i].Expr) && fresh(clone.Fields[i].Expr) && clone.Fields[i].Expr.typ__ == s.Fields[i].Expr.typ__)
+//@   loop 2 invariant -1 <= rangeindex && rangeindex < len(s.Dimensions) && len(clone.Dimensions) == rangeindex + 1 && fresh(clone.Dimensions) && clone.Dimensions != nil
+//@   loop 2 invariant forall(i, 0, rangeindex + 1, clone.Dimensions[i] != nil && fresh(clone.Dimensions[i]) && notnil(clone.Dimensions[i].Expr) && fresh(clone.Dimensions[i].Expr) && clone.Dimensions[i].Expr.typ__ == s.Dimensions[i].Expr.typ__)
+//@   loop 3 invariant -1 <= rangeindex && rangeindex < len(s.SortFields) && len(clone.SortFields) == rangeindex + 1 && fresh(clone.SortFields) && clone.SortFields != nil
+//@   loop 3 invariant forall(i, 0, rangeindex + 1, clone.SortFields[i] != nil && fresh(clone.SortFields[i]) && clone.SortFields[i].Name == s.SortFields[i].Name && clone.SortFields[i].Ascending == s.SortFields[i].Ascending)
